@@ -150,6 +150,20 @@ class Analysis:
         from analyses import place_prefix_type
         return place_prefix_type(self.fn, p, len(p['p']))
 
+    def option_field_invariant(self, p):
+        """payload interval of an `Option<int>` field proved as a store-hull invariant (rules/fieldinv.py), or None"""
+        from analyses import place_prefix_type
+        if not p['p'] or 'f' not in p['p'][-1]:
+            return None
+        owner = place_prefix_type(self.fn, p, len(p['p']) - 1)
+        if owner is None or owner['k'] != 'adt':
+            return None
+        key = (owner['path'], p['p'][-1].get('n'), 'some')
+        iv = self.ctx.fields.get(key)
+        if iv is not None:
+            self.ctx.used.add(key)
+        return iv
+
     def field_invariant(self, p, st=None):
         """interval assumed for a field read through a reference/struct (D3), or None"""
         from analyses import place_prefix_type
@@ -183,6 +197,11 @@ class Analysis:
                 m0 = meet(st[('some', base)], t0) if t0 else st[('some', base)]
                 if m0 != 'empty':
                     return m0
+            else:
+                inv_some = self.option_field_invariant({'l': p['l'], 'p': p['p'][:-2]})
+                t0 = type_range(self.ty_of_place(p))
+                if inv_some is not None and t0 is not None and meet(inv_some, t0) != 'empty':
+                    return meet(inv_some, t0)
         t = self.ty_of_place(p)
         rng = type_range(t)
         if not p['p']:
@@ -234,6 +253,10 @@ class Analysis:
                 for tag in ('len', 'some', 'issome', 'lenof', 'lensym', 'range'):
                     if (tag, place_key(p0)) in st:
                         aux[tag] = st[(tag, place_key(p0))]
+                if 'some' not in aux and k == 'use':
+                    inv_some = self.option_field_invariant(p0)
+                    if inv_some is not None:
+                        aux['some'] = inv_some
         if k == 'ref':
             rp = place_key(rv['p'])
             # &*x / &mut *x of a slice reference keeps its length
@@ -253,6 +276,11 @@ class Analysis:
             p = op_place(rv['a'])
             if p is not None and place_key(p) in rel:
                 newrel = rel[place_key(p)]
+            if p is not None and not p['p'] and not lhs['p'] and lty is not None and lty.get('k') == 'int' and \
+                    self.copy_src.get(lk) is None and p['l'] != lhs['l'] and lk in getattr(self, 'copy_local', {}):
+                # a temp copy of a variable that is assigned more than once (`total += 1; .. name[total..total + n]`): the copy
+                # equals the variable until either is overwritten - kept as `copy = variable + 0`, which linear forms expand
+                self._new_facts = getattr(self, '_new_facts', []) + [('sum', lk, place_key(p), ('const', 0))]
         elif k == 'cast':
             v = self.read_operand(st, rv['a'])
             to = fn.ty(rv['to'])
@@ -519,6 +547,12 @@ class Analysis:
             if p is not None and callee != 'str::len':
                 self._set_aux2 = ('lenof', self.root_of_ref(place_key(p)))
                 self._call_facts = (getattr(self, '_call_facts', None) or []) + [('le', dk, self.slice_ident(place_key(p)))]
+                # a slice cut as `&s[..n]` has the symbolic length n: its len() *is* n
+                for kk in self.keys_of(args[0]):
+                    ls = st.get(('lensym', kk))
+                    if ls is not None and ls[1] == 0 and len(ls[0]) == 1 and next(iter(ls[0]))[1] == 1:
+                        self._call_facts.append(('sum', dk, next(iter(ls[0]))[0], ('const', 0)))
+                        break
             if p is not None and callee == 'str::len':
                 key = ('strlen', self.root_of_ref(place_key(p)))
                 if key in st:
@@ -568,6 +602,16 @@ class Analysis:
                         st[('lensym', dk)] = sym
                     rel.pop(dk, None)
                     return
+        elif callee in ('[T]::split_at', '[T]::split_at_mut', 'core::slice::<impl [T]>::split_at',
+                        'core::slice::<impl [T]>::split_at_mut') and len(args) == 2:
+            # (a, b) = s.split_at(mid): len(a) = mid, len(b) = len(s) - mid   (mid <= len(s) is the call's own check)
+            val = None
+            ln = self.len_of_ref_operand(st, args[0])
+            mid = av[1]
+            if ln is not None and mid is not None:
+                a_len = (max(mid[0], 0), min(mid[1], ln[1]))
+                b_len = (max(ln[0] - mid[1], 0), max(ln[1] - mid[0], 0))
+                self._set_sub = [('len', (('f', 0, '0'), ), a_len), ('len', (('f', 1, '1'), ), b_len)]
         elif callee in ('[T]::iter', '[T]::iter_mut', 'core::slice::<impl [T]>::iter') and len(args) == 1:
             val = None
             ln = self.len_of_ref_operand(st, args[0])
@@ -730,10 +774,16 @@ class Analysis:
             st.pop(k2)
         for tag in ('len', 'some', 'issome', 'lensym'):
             st.pop((tag, dk), None)
+        for k2 in [k2 for k2 in st if k2 and k2[0] in ('len', 'some', 'issome', 'lensym', 'lenof') and isinstance(k2[1], tuple) and
+                   len(k2[1]) == 2 and k2[1][0] == dk[0] and isinstance(k2[1][1], tuple) and k2[1][1][:len(dk[1])] == dk[1] and k2[1] != dk]:
+            st.pop(k2)
         sa = getattr(self, '_set_aux', None)
         if sa is not None:
             st[(sa[0], dk)] = sa[1]
         self._set_aux = None
+        for tag_, sub_, v_ in getattr(self, '_set_sub', None) or []:
+            st[(tag_, (dk[0], dk[1] + sub_))] = v_  # facts about components of a returned tuple
+        self._set_sub = None
         for k2 in [k2 for k2 in st if k2 and k2[0] in FACT_TAGS and dk in k2[1:]]:
             st.pop(k2)
         self.kill_slen(st, dk)
@@ -1681,7 +1731,7 @@ def relation_anchor_holds(facts, r):
     a = r.get('anchor') or {}
     from analyses import Deps, switch_source, error_blocks
     deps = Deps(fn)
-    eb = error_blocks(fn)
+    eb = error_blocks(fn, none_is_failure=True)
     for bi in fn.reachable():
         t = fn.blocks[bi]['term']
         if t['k'] != 'switch':
